@@ -182,6 +182,8 @@ type World struct {
 
 	late sync.WaitGroup // goroutines spawned by compute functions that outlive their run
 
+	pendingActs int32 // injected actions in progress (atomic)
+
 	act int64 // activity counter (atomic): compute entries, writes, cleanups, stops
 
 	// statistics, protected by mu
